@@ -42,6 +42,22 @@ def simplexF (n : Nat) (d : Float) (v : Vec Float) : Vec Float :=
   let th := avrg.getD idx 0.0
   fun i => let t := v i - th; if t >= 0.0 then t else 0.0
 
+/-- `ProximalSimplex` on an array-weighted space as coded: order = argsort(-(w*x));
+`tau = (cumsum(x[order]) - d) / cumsum(1/w[order])`; `i = max {k | (w*x)[order][k] - tau_k >= 0}`;
+result `max(x - tau_i / w, 0)`. -/
+def wsimplexF (n : Nat) (d : Float) (v w : Vec Float) : Vec Float :=
+  let idx := ((List.range n).toArray.qsort (fun a b => w a * v a > w b * v b))
+  let (_, _, tau) := (List.range n).foldl (fun (acc : Float × Float × Array Float) k =>
+      let j := idx.getD k 0
+      let c := acc.1 + v j
+      let cw := acc.2.1 + 1.0 / w j
+      (c, cw, acc.2.2.push ((c - d) / cw))) (0.0, 0.0, #[])
+  let best := (List.range n).foldl (fun best k =>
+      let j := idx.getD k 0
+      if w j * v j - tau.getD k 0.0 >= 0.0 then k else best) 0
+  let th := tau.getD best 0.0
+  fun i => let t := v i - th / w i; if t >= 0.0 then t else 0.0
+
 /-- `n` base size, `mc` number of components (power space), `w` constant weighting,
 `p` exponent of PowerOperator. -/
 def floatFns (n mc : Nat) (w p : Float) : Fns Float where
@@ -68,6 +84,8 @@ def floatFns (n mc : Nat) (w p : Float) : Fns Float where
   pwnorm := fun v j => Float.sqrt (sumN mc (fun c => v (c * n + j) * v (c * n + j)))
   pdiv := fun a d k => a k / d (k % n)
   simplex := simplexF (n * mc)
+  wsimplex := wsimplexF (n * mc)
+  bidx := fun k => k % n
 
 def parseId (name : String) (f : String) : Option ProxId :=
   let b (i : Nat) : Bool := (f.toList.getD i '0') = '1'
@@ -84,9 +102,9 @@ def parseId (name : String) (f : String) : Option ProxId :=
   | "ccLinfty" => some .ccLinfty
   | "ccKL" => some (.ccKL (b 0))
   | "ccKLCE" => some (.ccKLCE (b 0))
-  | "huber" => some .huber
-  | "simplex" => some .simplex
-  | "sumc" => some .sumc
+  | "huber" => some (.huber (b 0))
+  | "simplex" => some (.simplex (b 0))
+  | "sumc" => some (.sumc (b 0))
   | "scaling" => some .scaling
   | "lincombOp" => some .lincombOp
   | "multiply" => some .multiply
